@@ -413,3 +413,88 @@ ALL = {f.__name__: f for f in [
     conflict_flat, nest2_mixed, conflict_ortho, order_rows, nest3, nest_inactive, noevent, fork_entry, exit_points,
     history_none, history_always, history_shallow, completion_chain, defer_basic, defer_action, queue_flat, queue_nested,
     blocking, flags, events_hier, serial_nested, storage]}
+
+
+def fe_player():
+    """the classic player, flat, expressible in every front-end (no sm-internal / state-local tables, no Defer)"""
+    return {
+        "name": "fe_player",
+        "events": ["E0", "E1", "E2", "E3", "E4"],
+        "machines": [{
+            "name": "Top", "regions": [["Empty", "Open", "Stopped", "Playing", "Paused"]],
+            "rows": [
+                "Stopped + E0 [g0] / a0 -> Playing", "Stopped + E1 / a1 -> Open", "Stopped + E2 / a2",
+                "Open + E1 / a3 -> Empty", "Empty + E1 / a4 -> Open", "Empty + E3 [g1 && !g2] / a5,a6 -> Stopped",
+                "Empty + E3 [g3] / a7 -> Playing", "Playing + E2 / a8 -> Stopped", "Playing + E4 -> Paused",
+                "Playing + E1 / a9,a10 -> Open", "Paused + E4 [g4 || g5] / a11 -> Playing", "Paused + E2 / a12 -> Stopped",
+                "Paused + E1 / a13 -> Open", "Playing + E0 [g6]", "Open + E0 [!g0]",
+            ],
+            "state": {"Playing": {"flags": ["F0"]}, "Paused": {"flags": ["F0", "F1"]}},
+        }],
+    }
+
+
+def fe_conflict():
+    """conflicting rows with guard expression trees (one level of parentheses), internal rows, 2 regions, completion"""
+    return {
+        "name": "fe_conflict",
+        "events": ["E0", "E1", "E2", "E3"],
+        "machines": [{
+            "name": "Top", "regions": [["A", "B", "C"], ["U", "V"]],
+            "rows": [
+                "A + E0 [g0 && g1 || g2] / a0 -> B", "A + E0 [!g0 && (g1 || g3)] / a1 -> C", "A + E0 [g4] / a2",
+                "A + E0 / a3,a4,a5 -> A", "B + E1 [g0 || g1 && !g2] / a6 -> C", "B + E1 [!(g3 || g4)] / a7", "B + E1 -> A",
+                "C + E2 [(g0 || g1) && g2] / a8 -> A", "C + E2 [g5 && !g1] -> B", "C [g6] / a9 -> A",
+                "U + E3 [g2 && g3 && g4] / a10 -> V", "V + E3 [g0 || g2 || g5] / a11 -> U", "U + E0 [!g1] / a12",
+                "V + E1 / a13 -> U",
+            ],
+        }],
+    }
+
+
+ALL["fe_player"] = fe_player
+ALL["fe_conflict"] = fe_conflict
+
+
+def fe_guard_shapes():
+    """guard expressions with parentheses in every position the documented syntax '!, &&, ||, ()' allows"""
+    return {
+        "name": "fe_guard_shapes",
+        "events": ["E0", "E1", "E2", "E3", "E4", "E5", "E6", "E7"],
+        "machines": [{
+            "name": "Top", "regions": [["A", "B"]],
+            "rows": [
+                "A + E0 [g0 || (g1) && g2] / a0",
+                "A + E1 [g0 || (g1 && g2) && g3] / a1",
+                "A + E2 [(g0 && g1) || g2 && g3] / a2",
+                "A + E3 [g0 && (g1 || g2) || g3] / a3",
+                "A + E4 [!(g0 && g1) || g2] / a4",
+                "A + E5 [g0 && !(g1 || g2) && g3] / a5",
+                "A + E6 [(g0 || g1) && g2 || g3] / a6",
+                "A + E7 [g0 || g1 && (g2 || g3)] / a7 -> B",
+                "B + E7 -> A",
+            ],
+        }],
+    }
+
+
+def fe_guard_groups():
+    """two parenthesised groups and nested parentheses"""
+    return {
+        "name": "fe_guard_groups",
+        "events": ["E0", "E1", "E2", "E3"],
+        "machines": [{
+            "name": "Top", "regions": [["A", "B"]],
+            "rows": [
+                "A + E0 [(g0 || g1) && (g2 || g3)] / a0",
+                "A + E1 [(g0 && g1) || (g2 && g3)] / a1",
+                "A + E2 [!(g0 || (g1 && g2)) && g3] / a2",
+                "A + E3 [((g0 || g1) && g2) || !(g3)] / a3 -> B",
+                "B + E3 -> A",
+            ],
+        }],
+    }
+
+
+ALL["fe_guard_shapes"] = fe_guard_shapes
+ALL["fe_guard_groups"] = fe_guard_groups
